@@ -11,8 +11,8 @@ import (
 func init() {
 	register(&Property{
 		Meta: PropMeta{
-			ID:    "C05",
-			Level: "other",
+			ID:          "C05",
+			Level:       "other",
 			Explanation: "Structural necessary conditions of value-source precedence, decided on the SSA of /repo for all paths: (ORDER) the defaults pass runs only when parseState.err == nil, outside the argument loop, and before checkRequired; (CLEAR) in clearDefault everything after the first test requires ¬preventDefault, the list of defaults applied originates only from Option.Default or — only when os.LookupEnv reports the variable set — from the environment value (split on EnvDefaultDelim or as a single value), the variable looked up is EnvKeyWithNamespace() and not the bare key, and the value is emptied before the defaults are applied; (FLAGS) preventDefault is stored only by Set (true, on every path to every return), setDefault (false) and the INI reader, setDefault applies nothing when preventDefault is set, and clearReferenceBeforeSet is armed with the constant true once per parse (ParseArgs before its loop, the INI reader before its loops) and cleared only by Set, which empties a slice/map exactly when it is armed; (INI) both INI setters are skipped in as-defaults mode for options recorded as explicitly set *before* the entries are read (no loop-carried inhibition), the mode selects setDefault vs Set, and preventDefault = true follows every applied entry; (ENVKEY) the namespace walks of EnvKeyWithNamespace and LongNameWithNamespace climb through *Group and *Command parents up to the *Parser and prepend namespace + the parser's delimiter.",
 			NotDecided:  "the final value for each subset of the five sources (a value relation); faults confined to one kind; os.LookupEnv semantics (trusted).",
 			Trusted:     []string{"go/ssa lowering", "go/types", "os.LookupEnv / strings.Split contracts"},
